@@ -431,9 +431,9 @@ func init() {
 	libN := func(tier string) int64 { return tierN(tier, 12000, 400000) }
 	cliN := func(tier string) int64 { return tierN(tier, 24, 200) }
 	fw.Register(&fw.Property{
-		ID:    "C13",
-		Level: "exploration",
-		Rule: "case = a cue list with a random reference graph (0..6 styles whose parents form a forest with chains up to depth 5, 0..4 regions optionally styled, cues/runs referencing them, unused and shared definitions; every third case is such a list written to TTML/WebVTT/SSA and parsed back, so the graph is the reader's). Oracle: harness-side reachability on identifiers = exactly the definitions left by Optimize; cues untouched (identity + snapshot); every remaining reference resolves; idempotent; the optimised list round-trips through all five writers+readers with the same cues as before. RemoveStyling: timing, run texts, voice names, order unchanged and no region/style/inline attribute left anywhere. CLI: 'astisub optimize' on TTML. distinct_nontrivial = distinct graphs compared.",
+		ID:          "C13",
+		Level:       "exploration",
+		Rule:        "case = a cue list with a random reference graph (0..6 styles whose parents form a forest with chains up to depth 5, 0..4 regions optionally styled, cues/runs referencing them, unused and shared definitions; every third case is such a list written to TTML/WebVTT/SSA and parsed back, so the graph is the reader's). Oracle: harness-side reachability on identifiers = exactly the definitions left by Optimize; cues untouched (identity + snapshot); every remaining reference resolves; idempotent; the optimised list round-trips through all five writers+readers with the same cues as before. RemoveStyling: timing, run texts, voice names, order unchanged and no region/style/inline attribute left anywhere. CLI: 'astisub optimize' on TTML. distinct_nontrivial = distinct graphs compared.",
 		Assumptions: []string{"map keys equal the definitions' ids and references point at the objects stored in the maps"},
 		Cases:       func(tier string) int64 { return libN(tier) + cliN(tier) },
 		Anchors:     []string{"Subtitles.Optimize", "Subtitles.removeUnusedRegionsAndStyles", "Subtitles.RemoveStyling", "astisub/main.go optimize"},
